@@ -428,3 +428,7 @@ O("C09.dly", ["C09", "C16", "C01"], "h_C09.c", "h_C09_dly",
   defines=["-DRR_INTER_MAX=64U"])
 # C17.shift.days (harness h_C17_shift_days exists): out of memory / no answer at |N| <= 62 (both halves of shift() and the
 # +-383 container's insert path are in one formula) - not registered
+for var, defs in (("replace", ["-DHOME_SAME"]), ("new", [])):
+    O("C11.inject.%s" % var, ["C11", "C12"], "h_C11.c", "h_C11_inject",
+      "_inject_task1 (%s): objects without occurrences refused; a UID queued by another user is never replaced, stopped or freed; same owner replaces in place keeping the running count; a new UID is queued, owned by and run as the requester; no other task touched" % ("UID already queued" if var == "replace" else "UID not queued"),
+      ["_inject_task1", "make_task", "get_task", "compl_uid", "compl_owner"], kind="bounded", bound="table of 16 slots", defines=defs, **E11)
